@@ -1,6 +1,7 @@
 import Seccomp.Model.Spec
 import Seccomp.Model.Oracle
 import Seccomp.Gen.Tables
+import Seccomp.Driver.Disasm
 import Std.Data.HashMap
 /-!
 # Line-protocol driver of the executable model (`lean_exe model`)
@@ -291,6 +292,7 @@ def handle (A : Arches) (line : String) : String :=
     (match p.run rest with
      | some (r, []) => r
      | _ => "BAD-REQUEST")
+  | "D" :: rest => DisasmDriver.handle rest
   | _ => "BAD-REQUEST"
 
 partial def loop (A : Arches) (hin hout : IO.FS.Stream) : IO Unit := do
